@@ -101,6 +101,13 @@ def gen_case(rng, tier, idx):
         cfg["simulation"]["sessions"].append({"sessionName": i, "iterationSteps": st, "withOrderPlacement": True,
                                               "withOrderExecution": rng.random() < 0.85, "withPrint": False,
                                               "maxNormalOrders": rng.choice([2, 5]), "maxHighFrequencyOrders": 1})
+    if rng.random() < 0.25:
+        # an event that makes sure a market is a constituent: refused (it already is), then the run goes on
+        t_e = rng.randrange(1, max(2, total))
+        cfg["ENSURE"] = {"class": "ProbeEvent", "hooks": [{"type": "market", "before": True, "time": None}],
+                         "fundChanges": [{"time": t_e, "at_market": comps[0], "market": rng.choice(comps), "index": "IDX",
+                                          "what": "ensure_component", "value": 0}]}
+        cfg["simulation"]["sessions"][0].setdefault("events", []).append("ENSURE")
     if rng.random() < 0.2 and not arb:
         # the public outstanding_shares attribute of a component is changed during the run (e.g. a share issue)
         t_ch = rng.randrange(1, max(2, total))
